@@ -3,7 +3,10 @@
   C02.Roots  every field of RuntimeData (and of CallFrame, reachable through call_stack) whose type can hold an object
              reference is enumerated by RuntimeData::gc.
   C02.M      for every CaoLangObjectBody variant, every reference-bearing field of the payload is read by the
-             variant's arm of the mark loop (or is covered by a stated derivation).
+             variant's arm of the mark loop (or is covered by a stated derivation); for a field that is a generic container
+             of the crate (Table.map : CaoHashMap<Value, Value, _>) every storage component typed by a reference-bearing
+             type parameter (keys : NonNull<K>, values : NonNull<V>) that the container's operations read again is
+             enumerated by a traversal the arm iterates, and its part of the items reaches the gray worklist.
   C02.P      objects marked Protected (alive through an ObjectGcGuard) are traced, not merely kept.
   C02.R      rooting hazards: no value that left the root set (popped operand, native parameter, result of
              insert_value) is passed into, or live across, a call that may allocate (and therefore collect).
@@ -11,7 +14,7 @@
 """
 from collections import defaultdict
 from cao.facts import (AnchorMissing, callee_names, short, op_local, op_place, DefUse, hir_walk, hir_callee, rvalue_places,
-                       hir_children, pat_bindings)
+                       hir_children, pat_bindings, hir_strip, block_exprs)
 from cao.rules import Rule, ok, bad, undecided, note
 from cao import mirutil as mu
 from cao import hirutil as hu
@@ -54,6 +57,124 @@ def bearing(F, ty, seen):
                     if bearing(F, f["ty"], seen2):
                         return True
     return False
+
+
+# ---------------------------------------------------------------------------------------------------
+# the collector: RuntimeData::gc plus the private functions it reaches in vm::runtime (phases, work-list helpers)
+# ---------------------------------------------------------------------------------------------------
+
+GC_FN = "vm::runtime::RuntimeData::gc"
+
+
+def _is_primitive_push(t):
+    """`Vec<.. CaoLangObject ..>::push(list, obj)`: the gray work list grows"""
+    return (any(n.startswith("std::vec::Vec::") and n.endswith("::push") for n in callee_names(t["func"]))
+            and "CaoLangObject" in "".join(t.get("arg_tys", [])))
+
+
+class Collector:
+    """gc and the non-public functions of vm::runtime it (transitively) calls, in call order. The rules about the collector
+    look at all of them: splitting gc into phases or wrapping the work list in a private type must not change a verdict.
+      fns       [gc, callee, ..] (closures belong to the function that defines them)
+      pushers   function -> set of parameter locals that the function (transitively) appends to the gray work list
+                (found by what it does: the parameter flows into `Vec<..CaoLangObject..>::push`)"""
+
+    def __init__(self, F):
+        self.F = F
+        self.gc = F.fn(GC_FN)
+        self.fns = []
+        seen = set()
+
+        def visit(g):
+            if g.short in seen:
+                return
+            seen.add(g.short)
+            self.fns.append(g)
+            for h in [g] + F.closures_of.get(g.short, []):
+                if not h.mir:
+                    continue
+                for _bi, t in mu.calls(h):
+                    for n in callee_names(t["func"]):
+                        c = F.fn(n, required=False)
+                        if c is None or c.is_closure or not c.mir or c.hir is None:
+                            continue
+                        if not c.short.startswith(("vm::runtime::", "<vm::runtime::")):
+                            continue
+                        if c.raw.get("vis", "Public") == "Public":
+                            continue
+                        visit(c)
+        visit(self.gc)
+        self.shorts = set(g.short for g in self.fns)
+        self.pushers = {}
+        changed = True
+        rounds = 0
+        while changed and rounds < 8:
+            changed = False
+            rounds += 1
+            for g in self.fns:
+                if g is self.gc:
+                    continue
+                nargs = len((g.raw.get("sig") or {}).get("inputs", []))
+                for p_ in range(1, nargs + 1):
+                    if p_ in self.pushers.get(g.short, ()):
+                        continue
+                    if self._param_reaches_push(g, p_):
+                        self.pushers.setdefault(g.short, set()).add(p_)
+                        changed = True
+
+    def bodies(self, g):
+        return [g] + self.F.closures_of.get(g.short, [])
+
+    def all_bodies(self):
+        return [h for g in self.fns for h in self.bodies(g)]
+
+    def push_args(self, t):
+        """operands of call terminator t that are appended to the work list ([] if t is no push)"""
+        if t["k"] != "call":
+            return []
+        if _is_primitive_push(t):
+            return list(t["args"][1:])
+        out = []
+        for n in callee_names(t["func"]):
+            for p_ in self.pushers.get(n, ()):
+                if p_ - 1 < len(t["args"]):
+                    out.append(t["args"][p_ - 1])
+            if out:
+                break
+        return out
+
+    def push_sites(self, g):
+        return [(bi, t) for bi, t in mu.calls(g) if self.push_args(t)]
+
+    def _param_reaches_push(self, g, p_):
+        tainted = {p_}
+        changed = True
+        while changed:
+            changed = False
+            for b in g.blocks:
+                for st in b["stmts"]:
+                    if st["k"] == "assign" and st["place"]["l"] not in tainted and any(q["l"] in tainted for q in rvalue_places(st["rv"])):
+                        tainted.add(st["place"]["l"])
+                        changed = True
+                t = b["term"]
+                if t["k"] == "call" and t["dest"]["l"] not in tainted:
+                    if any((op_place(a) or {"l": None})["l"] in tainted for a in t["args"]):
+                        tainted.add(t["dest"]["l"])
+                        changed = True
+        for b in g.blocks:
+            for a in self.push_args(b["term"]):
+                q = op_place(a)
+                if q is not None and q["l"] in tainted:
+                    return True
+        return False
+
+
+def collector(F):
+    c = getattr(F, "_c02_collector", None)
+    if c is None:
+        c = Collector(F)
+        F._c02_collector = c
+    return c
 
 
 def self_fields_read(F, fn, with_closures=True):
@@ -152,12 +273,10 @@ def field_feeds_worklist(F, gc, field):
                         changed = True
                     # &mut iterators handed to next(): the iterator local itself stays tainted
     cfg = gc.cfg
-    pushes = []
-    for bi, t in mu.calls(gc):
-        if any(n.startswith("std::vec::Vec::") and n.endswith("::push") for n in callee_names(t["func"])) and "CaoLangObject" in "".join(t.get("arg_tys", [])):
-            pushes.append((bi, t))
+    col = collector(F)
+    pushes = col.push_sites(gc)
     for bi, t in pushes:
-        for a in t["args"][1:]:
+        for a in col.push_args(t):
             p = op_place(a)
             if p is not None and place_tainted(p):
                 return True
@@ -181,10 +300,19 @@ def rule_roots(F):
     res = []
     rd = F.adt("vm::runtime::RuntimeData")
     gc = F.fn("vm::runtime::RuntimeData::gc")
-    read = self_fields_read(F, gc)
-    read_first = set(r[0] for r in read if field_feeds_worklist(F, gc, r[0]))
+    col = collector(F)
+    # the root enumeration may live in gc itself or in a phase it calls on the same RuntimeData (a method taking self)
+    read_first = set()
+    for g in col.fns:
+        if not g.mir or not (g.raw.get("sig") or {}).get("inputs") or "vm::runtime::RuntimeData" not in g.local_ty(1):
+            continue
+        for r in self_fields_read(F, g):
+            if r[0] not in read_first and field_feeds_worklist(F, g, r[0]):
+                read_first.add(r[0])
     all_fields_anywhere = set()
-    for g in [gc] + F.closures_of.get(gc.short, []):
+    for g in col.all_bodies():
+        if not g.mir:
+            continue
         for b in g.blocks:
             for st in b["stmts"]:
                 if st["k"] == "assign":
@@ -245,21 +373,27 @@ def check_value_derivation(F):
 
 def rule_m(F):
     res = []
-    gc = F.fn("vm::runtime::RuntimeData::gc")
+    entry = F.fn("vm::runtime::RuntimeData::gc")
+    col = collector(F)
     body = F.adt(BODY)
-    # the mark loop's switch on the discriminant of CaoLangObjectBody
+    # the mark loop's switch on the discriminant of CaoLangObjectBody: of all such switches in the collector's functions the
+    # one that distinguishes the most object kinds (the frame-closure search only singles out Closure)
     sw = None
-    for bi, b in enumerate(gc.blocks):
-        t = b["term"]
-        if t["k"] != "switch":
+    for g in col.fns:
+        if not g.mir:
             continue
-        loc = op_local(t["discr"])
-        for st in b["stmts"]:
-            if st["k"] == "assign" and st["place"]["l"] == loc and st["rv"]["k"] == "discr" and short(st["rv"]["adt"]) == BODY:
-                sw = (bi, t)
-    if sw is None:
+        for bi, b in enumerate(g.blocks):
+            t = b["term"]
+            if t["k"] != "switch":
+                continue
+            loc = op_local(t["discr"])
+            for st in b["stmts"]:
+                if st["k"] == "assign" and st["place"]["l"] == loc and st["rv"]["k"] == "discr" and short(st["rv"]["adt"]) == BODY:
+                    if sw is None or len(t["targets"]) >= len(sw[2]["targets"]):
+                        sw = (g, bi, t)
+    if sw is None or len(sw[2]["targets"]) < 3:
         raise AnchorMissing("match on CaoLangObjectBody in RuntimeData::gc")
-    bi, t = sw
+    gc, bi, t = sw
     by_discr = {v["discr"]: v["name"] for v in body["variants"]}
     targets = {by_discr[val]: tb for val, tb in t["targets"] if val in by_discr}
     missing = [v["name"] for v in body["variants"] if v["name"] not in targets]
@@ -322,9 +456,9 @@ def rule_m(F):
                 res.append(ok("C02.M", key, gc.loc(), "derived: " + DERIVED[(vname, f["name"])]))
             else:
                 # a link field that the root enumeration walks counts as covered
-                walked = any(f["name"] == r[-1] for r in self_fields_read(F, gc)) or any(
+                walked = any(f["name"] == r[-1] for g2 in col.fns if g2.mir for r in self_fields_read(F, g2)) or any(
                     e.get("name") == f["name"] and short(e.get("owner", "")) == short(payload_ty)
-                    for g2 in [gc] + F.closures_of.get(gc.short, [])
+                    for g2 in col.all_bodies() if g2.mir
                     for b3 in g2.blocks for st in b3["stmts"] if st["k"] == "assign"
                     for p in rvalue_places(st["rv"]) for e in p["p"] if e["k"] == "field")
                 if walked:
@@ -334,6 +468,294 @@ def rule_m(F):
                                    "%s.%s : %s can hold an object reference but the mark phase never follows it" % (vname, f["name"], f["ty"])))
         if not any(bearing(F, f["ty"], set()) for f in padt["variants"][0]["fields"]):
             res.append(ok("C02.M", "C02/M/%s" % vname, gc.loc(), "%s has no reference-bearing field" % vname))
+    return res + rule_m_parts(F)
+
+
+# ---------------------------------------------------------------------------------------------------
+# C02.M, second level: the storage components of a payload's sub-containers
+# ---------------------------------------------------------------------------------------------------
+
+def _split_top(sx):
+    """split a comma separated list at nesting depth 0"""
+    out, depth, cur = [], 0, ""
+    for ch in sx:
+        if ch in "<([":
+            depth += 1
+        elif ch in ">)]":
+            depth -= 1
+        if ch == "," and depth == 0:
+            out.append(cur.strip())
+            cur = ""
+        else:
+            cur += ch
+    if cur.strip():
+        out.append(cur.strip())
+    return out
+
+
+def _generic_args(ty):
+    i = ty.find("<")
+    if i < 0 or not ty.endswith(">"):
+        return []
+    return _split_top(ty[i + 1:-1])
+
+
+def _mentions_param(ty, param):
+    import re
+    return re.search(r"(?<![A-Za-z0-9_:])%s(?![A-Za-z0-9_])" % re.escape(param), ty) is not None
+
+
+def _item_components(out_ty):
+    """`impl Iterator<Item = (&K, &V)>` -> ['&K', '&V'];  `.. Item = &K>` -> ['&K'];  None if the output is no such type"""
+    i = out_ty.find("Item = ")
+    if i < 0:
+        return None
+    rest = out_ty[i + len("Item = "):]
+    depth, j = 0, 0
+    while j < len(rest):
+        ch = rest[j]
+        if ch in "<([":
+            depth += 1
+        elif ch in ">)]":
+            if depth == 0:
+                break
+            depth -= 1
+        elif ch == "," and depth == 0:
+            break
+        j += 1
+    item = rest[:j].strip()
+    if item.startswith("(") and item.endswith(")"):
+        return _split_top(item[1:-1])
+    return [item]
+
+
+def mark_match_hir(F):
+    """(function, arms) of the `match <obj>.body { .. }` of the mark phase: among the collector's functions the match on
+    CaoLangObjectBody that names at least four object kinds"""
+    from cao.facts import pat_variants
+    best = None
+    for g in collector(F).fns:
+        if g.hir is None:
+            continue
+        for x in hir_walk(g.hir["body"]):
+            if x.get("k") != "match":
+                continue
+            kinds = set(n for a in x["arms"] for n, _s, _p in pat_variants(a["pat"]) if "CaoLangObjectBody" in n)
+            if len(kinds) >= 4 and (best is None or len(kinds) >= best[2]):
+                best = (g, x["arms"], len(kinds))
+    if best is None:
+        raise AnchorMissing("match on CaoLangObjectBody in the mark loop of gc")
+    return best[0], best[1]
+
+
+def mark_arms_hir(F):
+    """(function of the mark match, variant name of CaoLangObjectBody -> body of its arm)"""
+    from cao.facts import pat_variants
+    g, arms = mark_match_hir(F)
+    out = {}
+    for a in arms:
+        for nm, _s, _p in pat_variants(a["pat"]):
+            if "::" in nm:
+                out[nm.rsplit("::", 1)[-1]] = a["body"]
+    return g, out
+
+
+def _for_pattern_of(arm_body, call):
+    """the item pattern of the `for PAT in <expr containing call>` loop of the arm, and the loop body; None if the result
+    of the call is not iterated by a for loop"""
+    for x in hir_walk(arm_body):
+        if x.get("k") != "match" or x.get("source") != "ForLoopDesugar":
+            continue
+        sc = hir_strip(x["scrut"])
+        if sc is None or sc.get("k") != "call" or not any(n.endswith("IntoIterator::into_iter") for n in hir_callee(sc)):
+            continue
+        if not any(y is call for y in hir_walk(sc)):
+            continue
+        for y in hir_walk(x["arms"][0]["body"]):
+            if y.get("k") == "match" and y.get("source") == "ForLoopDesugar":
+                for a in y["arms"]:
+                    p = a["pat"]
+                    if p.get("k") == "struct" and p.get("fields"):
+                        return p["fields"][0]["pat"], a["body"]
+                    if p.get("k") == "tuple_struct" and p.get("pats"):
+                        return p["pats"][0], a["body"]
+    return None
+
+
+def _reaches_worklist(body, seeds, component=None, col=None):
+    """Does a value bound to one of the locals `seeds` flow, inside `body`, into the gray worklist (a push onto the
+    Vec of objects, or a call that receives it together with the worklist)? Flow: `let P = e` / `if let P = e` /
+    `match e { P => .. }` bind P's variables when e mentions a flowing local. With `component`, only the uses of
+    `<seed>.<component>` start the flow."""
+    tainted = set()
+
+    def mentions(e, direct_ok=True):
+        for y in hir_walk(e):
+            if y.get("k") == "path" and y["path"]["res"].get("k") == "local" and y["path"]["res"]["id"] in tainted:
+                return True
+            if component is not None and y.get("k") == "field" and y["name"] == str(component):
+                b = hu.strip_all(y["e"])
+                if b is not None and b.get("k") == "path" and b["path"]["res"].get("k") == "local" and b["path"]["res"]["id"] in seeds:
+                    return True
+        return False
+    if component is None:
+        tainted |= set(seeds)
+    changed = True
+    nodes = list(hir_walk(body))
+    while changed:
+        changed = False
+        for x in nodes:
+            k = x.get("k")
+            binds = []
+            if k == "let" and x.get("init") is not None and mentions(x["init"]):
+                binds = [i for i, _n in pat_bindings(x["pat"])]
+            elif k == "match" and mentions(x["scrut"]):
+                for a in x["arms"]:
+                    binds += [i for i, _n in pat_bindings(a["pat"])]
+            elif k == "block":
+                for st in x["block"]["stmts"]:
+                    if st["k"] == "let" and st.get("init") is not None and mentions(st["init"]):
+                        binds += [i for i, _n in pat_bindings(st["pat"])]
+            elif k == "assign" and mentions(x["r"]):
+                lid = hu.field_chain(x["l"])
+                if lid is not None and lid[0] is not None:
+                    binds = [lid[0]]
+            for b in binds:
+                if b not in tainted:
+                    tainted.add(b)
+                    changed = True
+    for x in nodes:
+        if x.get("k") not in ("mcall", "call"):
+            continue
+        args = ([x["recv"]] if x["k"] == "mcall" else []) + list(x["args"])
+        names = hir_callee(x)
+        # a function of the collector that appends one of its parameters to the work list (GrayQueue::push_if_white ..)
+        if col is not None:
+            for n in names:
+                for p_ in col.pushers.get(n, ()):
+                    if p_ - 1 < len(args) and mentions(args[p_ - 1]):
+                        return True
+        tys = [(hir_strip(a) or {}).get("ty", "") or "" for a in args]
+        wl = [i for i, t in enumerate(tys) if "Vec<" in t and "CaoLangObject" in t]
+        if not wl:
+            continue
+        is_push = any(n.startswith("std::vec::Vec::") and n.endswith("::push") for n in names)
+        if is_push or any(n.startswith(("vm::", "collections::")) for n in names):
+            if any(mentions(a) for i, a in enumerate(args) if i not in wl):
+                return True
+    return False
+
+
+def rule_m_parts(F):
+    """C02.M, storage components: a payload field that is itself a container of the crate (`map: CaoHashMap<Value, Value, _>`)
+    keeps object references in several places - every field of the container whose type is built from a type parameter
+    that is instantiated with a reference-bearing type (`keys: NonNull<K>`, `values: NonNull<V>`). Each of them that the
+    container's own operations read again must be enumerated by the object's arm of the mark loop: the arm iterates a
+    traversal of the container that reads the field, and the part of the traversal's item that stands for the field
+    (the tuple component typed by the same parameter) flows into the gray worklist. Marking one projection only (the
+    values of the slots but not their keys) leaves the other one dangling as soon as the object's other views (the key
+    list) stop mentioning it."""
+    res = []
+    col = collector(F)
+    body = F.adt(BODY)
+    gc, arms = mark_arms_hir(F)
+    for v in body["variants"]:
+        vname = v["name"]
+        payload_ty = v["fields"][0]["ty"] if v["fields"] else ""
+        padt = F.adts.get(short(payload_ty))
+        if padt is None or vname not in arms:
+            continue
+        arm = arms[vname]
+        for pf in padt["variants"][0]["fields"]:
+            cty = pf["ty"]
+            cadt = F.adts.get(short(cty).split("<")[0])
+            if cadt is None or not cadt.get("ty_params") or not bearing(F, cty, set()):
+                continue
+            params = _generic_args(cadt.get("self_ty", ""))
+            args = _generic_args(cty)
+            if not params or len(params) != len(args):
+                res.append(undecided("C02.M", "C02/M/%s.%s.*" % (vname, pf["name"]), gc.loc(), "generic arguments of %s not understood" % cty))
+                continue
+            inst = dict(zip(params, args))
+            cpath = cadt["path"]
+            methods = [g for g in F.fns if not g.is_closure and g.hir is not None and g.raw.get("impl_self")
+                       and short(g.raw["impl_self"]).split("<")[0] == cpath]
+            reads = {g.short: set(r[0] for r in self_fields_read(F, g)) for g in methods}
+            # traversals of the container that the arm iterates
+            trav = []
+            for y in hir_walk(arm):
+                if y.get("k") == "mcall":
+                    for cn in hir_callee(y):
+                        g = next((m for m in methods if m.short == cn), None)
+                        if g is not None:
+                            trav.append((g, y))
+            for sf in cadt["variants"][0]["fields"]:
+                ps = [p_ for p_ in params if _mentions_param(sf["ty"], p_) and bearing(F, inst[p_], set())]
+                if not ps:
+                    continue
+                key = "C02/M/%s.%s.%s" % (vname, pf["name"], sf["name"])
+                what = "%s.%s.%s : %s (%s = %s)" % (vname, pf["name"], sf["name"], sf["ty"], ps[0], inst[ps[0]])
+                readers = sorted(g.name for g in methods if sf["name"] in reads[g.short] and not any(g is t for t, _y in trav)
+                                 and g.name not in ("drop", "clear"))
+                if not readers:
+                    res.append(ok("C02.M", key, gc.loc(), "%s is never read again by an operation of %s" % (what, cadt["path"].rsplit("::", 1)[-1])))
+                    continue
+                if not trav:
+                    res.append(undecided("C02.M", key, gc.loc(), "the %s arm calls no traversal of %s: cannot tell how %s is enumerated" % (vname, cpath, what)))
+                    continue
+                verdicts = []
+                for g, y in trav:
+                    if sf["name"] not in reads[g.short]:
+                        continue
+                    comps = _item_components((g.raw.get("sig") or {}).get("output", ""))
+                    if comps is None:
+                        verdicts.append(("undecided", g, y, "the item type of %s is not written as `Item = ..`" % g.name))
+                        continue
+                    idx = [i for i, c in enumerate(comps) if any(_mentions_param(c, p_) for p_ in ps)]
+                    if not idx:
+                        verdicts.append(("dropped", g, y, "%s reads `%s` but its items (%s) carry nothing of type %s" % (g.name, sf["name"], ", ".join(comps), ps[0])))
+                        continue
+                    fp = _for_pattern_of(arm, y)
+                    if fp is None:
+                        verdicts.append(("undecided", g, y, "the result of %s is not consumed by a `for` loop" % g.name))
+                        continue
+                    pat, lbody = fp
+                    while pat.get("k") in ("ref", "box", "deref"):
+                        pat = pat["pat"]
+                    good = True
+                    why = ""
+                    for i in idx:
+                        if len(comps) > 1 and pat.get("k") == "tuple":
+                            sub = pat["pats"][i] if i < len(pat["pats"]) else None
+                            seeds = [b for b, _n in pat_bindings(sub)] if sub is not None else []
+                            comp = None
+                        elif pat.get("k") == "bind":
+                            seeds = [pat["id"]]
+                            comp = i if len(comps) > 1 else None
+                        else:
+                            seeds, comp = [b for b, _n in pat_bindings(pat)], None
+                        if not seeds:
+                            good = False
+                            why = "the loop over %s ignores component %d of its items (`%s`, pattern `_`)" % (g.name, i, comps[i])
+                        elif not _reaches_worklist(lbody, set(seeds), comp, col):
+                            good = False
+                            why = "component %d (`%s`) of the items of %s is bound but never reaches the gray worklist" % (i, comps[i], g.name)
+                    verdicts.append(("ok" if good else "dropped", g, y, why))
+                if any(vd[0] == "ok" for vd in verdicts):
+                    g = next(vd[1] for vd in verdicts if vd[0] == "ok")
+                    res.append(ok("C02.M", key, gc.loc(), "%s is enumerated through %s and enqueued; it is read again by %s" % (what, g.name, ", ".join(readers[:4]))))
+                elif any(vd[0] == "undecided" for vd in verdicts):
+                    vd = next(vd for vd in verdicts if vd[0] == "undecided")
+                    res.append(undecided("C02.M", key, gc.loc(vd[2].get("ln")), vd[3]))
+                else:
+                    why = "; ".join(vd[3] for vd in verdicts) or "no traversal called by the arm reads `%s`" % sf["name"]
+                    ln = verdicts[0][2].get("ln") if verdicts else None
+                    res.append(bad("C02.M", key, gc.loc(ln),
+                                   "%s holds object references that the mark phase does not follow: %s. The %s arm marks other views of the "
+                                   "object only, but %s still read(s) this storage: once the other views no longer mention an object kept here "
+                                   "(a row whose key was mutated after insertion survives pop/remove in the hash part while it leaves the key "
+                                   "list) the sweep frees it and the next lookup that lands on the row dereferences freed memory"
+                                   % (what, why, vname, ", ".join(readers[:4]))))
     return res
 
 
@@ -342,22 +764,54 @@ def rule_m(F):
 MARKER = "vm::runtime::cao_lang_object::GcMarker"
 
 
+FIRST_HIT_CONSUMERS = ("find", "find_map", "position", "rposition")
+ITER_CONSUMERS = FIRST_HIT_CONSUMERS + ("for_each", "try_for_each", "fold", "any", "all", "extend", "collect", "count", "last")
+
+
 def rule_b(F):
-    """C02.B: the collector's scans run to completion. A user-written `break` / `return` inside a loop of gc() is accepted
-    only as the end of a search for *one* root: the loop it leaves is nested in another loop and the condition that leads
-    to the exit mentions that outer loop's item (frame -> its closure object). A scan over a whole set of roots or
-    candidates that stops at the first hit leaves the remaining ones unmarked; the sweep then frees objects still in use."""
+    """C02.B: the collector's scans run to completion. A user-written `break` / `return` inside a loop of gc() (or of a
+    private function gc reaches) is accepted only as the end of a search for *one* root: the loop it leaves is nested in
+    another loop and the condition that leads to the exit mentions that outer loop's item (frame -> its closure object).
+    The same holds for a scan written as an iterator search (`.find(..)`, `.position(..)`): it must sit inside a loop and
+    its predicate must mention that loop's item. A scan over a whole set of roots or candidates that stops at the first hit
+    leaves the remaining ones unmarked; the sweep then frees objects still in use."""
     res = []
     gc = F.fn("vm::runtime::RuntimeData::gc")
+    col = collector(F)
+    hir_fns = [g for g in col.fns if g.hir is not None]
+    loops_total = 0
+    for g in hir_fns:
+        for x in hir_walk(g.hir["body"]):
+            if x.get("k") == "loop":
+                loops_total += 1
+            elif x.get("k") == "mcall" and x.get("name") in ITER_CONSUMERS and any("iter" in n.lower() for n in hir_callee(x)):
+                loops_total += 1      # a loop written as an iterator chain
+    if loops_total < 8:
+        raise AnchorMissing("loops of RuntimeData::gc (found %d)" % loops_total)
+    state = {"n": 0, "n_cond": 0, "n_find": 0}
+    # call sites of the collector's helpers that lie inside a loop (a `return` in such a helper ends one step of that loop)
+    called_in_loop = set()
+    for g in hir_fns:
+        anc = hu.control_ancestors(g.hir["body"])
+        for x in hir_walk(g.hir["body"]):
+            if x.get("k") in ("call", "mcall") and any(k_ == "loop" for k_, _i in anc.get(id(x), ())):
+                called_in_loop |= set(n for n in hir_callee(x) if n in col.shorts)
+    for g in hir_fns:
+        _rule_b_fn(F, gc, g, res, state, g.short in called_in_loop)
+    if state["n"] == 0 and state["n_find"] == 0 and not res:
+        res.append(ok("C02.B", "C02/B/gc/no-early-exit", gc.loc(), "no user-written break/return inside any of the %d loops of gc()" % loops_total))
+    return res
+
+
+def _rule_b_fn(F, entry, gc, res, state, called_in_loop):
+    """the early exits of one function of the collector"""
     inits = hu.let_inits(gc)
     parents = {}
     for x in hir_walk(gc.hir["body"]):
         for c in hir_children(x):
             parents[id(c)] = x
     exits = [x for x in hir_walk(gc.hir["body"]) if x.get("k") in ("break", "ret") and not x.get("exp")]
-    loops_total = sum(1 for x in hir_walk(gc.hir["body"]) if x.get("k") == "loop")
-    if loops_total < 8:
-        raise AnchorMissing("loops of RuntimeData::gc (found %d)" % loops_total)
+    param_ids = set(i for p_ in gc.hir.get("params", []) for i, _n in pat_bindings(p_))
 
     def refs(e, depth=0, seen=None):
         seen = seen if seen is not None else set()
@@ -384,17 +838,65 @@ def rule_b(F):
                 out |= set(i for i, _ in pat_bindings(st["pat"]))
         return out
 
-    n = 0
-    for ex in exits:
+    def is_loop_condition(ex, lp):
+        """The break is decided by the first thing an iteration evaluates, before any effect of the iteration:
+        `loop { let x = match E { P => x, _ => break }; .. }`, `loop { match E { P => {..}, _ => break } }`,
+        `loop { let P = E else { break }; .. }`, `loop { if c { break } .. }`. These are what `while let P = E { .. }` and
+        `while !c { .. }` desugar to (whose compiler-made breaks are not exits of a scan either): the loop's own
+        termination test, not a stop at the first hit."""
+        if ex.get("label") or ex.get("e") is not None:
+            return False
+        body = lp["body"]
+        first = None
+        if body["stmts"]:
+            st = body["stmts"][0]
+            if st["k"] == "let":
+                if st.get("els") is not None:
+                    els = st["els"]
+                    only = [y for y in block_exprs(els)]
+                    if len(only) == 1 and hir_strip(only[0]) is ex:
+                        return True
+                first = st.get("init")
+            else:
+                first = st.get("e")
+        else:
+            first = body.get("expr")
+        first = hir_strip(first) if first is not None else None
+        if first is None:
+            return False
+        if first.get("k") == "match":
+            if any(a.get("guard") for a in first["arms"]):
+                return False
+            return any(hir_strip(a["body"]) is ex for a in first["arms"])
+        if first.get("k") == "if":
+            return hir_strip(first["then"]) is ex or (first.get("else") is not None and hir_strip(first["else"]) is ex)
+        return False
+
+    def chain_of(x):
+        """enclosing nodes of x inside the innermost closure body (a `return` in a closure leaves the closure only)"""
         chain = []
-        p = parents.get(id(ex))
+        p = parents.get(id(x))
+        in_closure = False
         while p is not None:
+            if p.get("k") == "closure":
+                in_closure = True
+                break
             chain.append(p)
             p = parents.get(id(p))
+        return chain, in_closure
+
+    for ex in exits:
+        chain, in_closure = chain_of(ex)
         loops = [c for c in chain if c.get("k") == "loop"]
         if not loops:
-            continue   # an exit outside any loop (none today)
-        n += 1
+            continue   # an exit outside any loop: a plain early return of a phase (C02.U looks at those) / of a closure
+        if ex["k"] == "break" and is_loop_condition(ex, loops[0]):
+            state["n_cond"] += 1
+            res.append(ok("C02.B", "C02/B/gc/loop-condition#%d" % state["n_cond"], gc.loc(ex.get("ln")),
+                          "the break is the loop's own termination test (first thing evaluated in an iteration, as in `while let`)"))
+            continue
+        state["n"] += 1
+        n = state["n"]
         inner = loops[0]
         conds = []
         for c in chain:
@@ -410,7 +912,10 @@ def rule_b(F):
                 used |= refs(c)
         outer = loops[1:]
         key = "C02/B/gc/%s#%d-ends-a-search-for-one-root" % (ex["k"], n)
-        if ex["k"] == "ret":
+        if ex["k"] == "ret" and not in_closure and gc is not entry and called_in_loop and (used & param_ids):
+            res.append(ok("C02.B", key, gc.loc(ex.get("ln")), "%s returns once it has found what its argument asks for; it is called "
+                          "from a loop over the roots, which goes on" % gc.name))
+        elif ex["k"] == "ret":
             res.append(bad("C02.B", key, gc.loc(ex.get("ln")), "gc() returns from inside a marking/sweeping loop: the rest of the roots are never marked"))
         elif any(used & loop_bindings(o) for o in outer):
             res.append(ok("C02.B", key, gc.loc(ex.get("ln")), "leaves the inner search once the outer loop's item is found; the outer loop goes on"))
@@ -420,48 +925,134 @@ def rule_b(F):
                            "the roots (the exit condition does not mention an enclosing loop's item): every root after the first match stays "
                            "unmarked - e.g. only the first call frame's closure is kept, the closures of the other active frames are freed "
                            "by the sweep while they are still executing"))
-    if n == 0:
-        res.append(ok("C02.B", "C02/B/gc/no-early-exit", gc.loc(), "no user-written break/return inside any of the %d loops of gc()" % loops_total))
-    return res
+    # scans written as iterator searches: `.find(pred)` stops at the first hit like `for .. { if pred { ..; break } }`
+    for x in hir_walk(gc.hir["body"]):
+        if not (x.get("k") == "mcall" and x.get("name") in FIRST_HIT_CONSUMERS and any(n.startswith(("std::iter::", "core::iter::")) for n in hir_callee(x))):
+            continue
+        chain, in_closure = chain_of(x)
+        loops = [c for c in chain if c.get("k") == "loop"]
+        state["n_find"] += 1
+        key = "C02/B/gc/%s#%d-ends-a-search-for-one-root" % (x["name"], state["n_find"])
+        used = set()
+        for a in x["args"]:
+            used |= refs(a)
+        if any(used & loop_bindings(o) for o in loops) or (gc is not entry and called_in_loop and (used & param_ids)):
+            res.append(ok("C02.B", key, gc.loc(x.get("ln")), "a search for the one object the enclosing loop's item refers to; the loop goes on"))
+        else:
+            res.append(bad("C02.B", key, gc.loc(x.get("ln")),
+                           "gc() scans with `.%s(..)`, which stops at the first hit, and the scan is not a per-item search nested in a loop "
+                           "over the roots (the predicate does not mention an enclosing loop's item): every root after the first match "
+                           "stays unmarked and is freed by the sweep while still in use" % x["name"]))
 
 
 def rule_u(F):
     """C02.U: every collection ends with the unmark phase. The mark phase only descends into White children, so an object
     left Gray by one collection is taken for 'already visited' by the next one and whatever was stored into it in between
     is never marked. Decided on the MIR of gc(): every path from a store of Gray into a marker to the return passes through
-    the loop that stores White (its header, so that an empty object list still counts)."""
+    the loop that stores White (its header, so that an empty object list still counts). A call of a private phase of the
+    collector stands for what the phase does: it is a Gray point if the phase (transitively) stores Gray, and it is the
+    unmark phase if every path through the callee passes the callee's own unmark loop / `for_each` that stores White."""
     res = []
     gc = F.fn("vm::runtime::RuntimeData::gc")
-    cfg = gc.cfg
-    du = DefUse(gc)
+    col = collector(F)
 
-    def stored_variant(st):
-        rv = st["rv"]
-        if rv["k"] == "agg":
-            return rv["agg"].get("variant")
-        if rv["k"] == "use":
-            v = mu.operand_variant(gc, du, rv["op"])
-            return v.rsplit("::", 1)[-1] if isinstance(v, str) else None
-        return None
-    gray, white = [], []
-    for bi, b in enumerate(gc.blocks):
-        if bi not in cfg.reach:
-            continue
-        for st in b["stmts"]:
-            if st["k"] == "assign" and mu.field_path(st["place"])[-1:] == ["marker"]:
-                v = stored_variant(st)
-                if v == "Gray":
-                    gray.append(bi)
-                elif v == "White":
+    def is_marker_place(h, place):
+        if mu.field_path(place)[-1:] == ["marker"]:
+            return True
+        if [e["k"] for e in place["p"]] == ["deref"]:
+            ty = h.local_ty(place["l"])
+            return ty.replace("&mut ", "").replace("*mut ", "").strip() == MARKER
+        return False
+
+    def direct_stores(h):
+        """[(block, variant)] of the marker stores written in body h"""
+        hdu = DefUse(h)
+        out = []
+        for bi, b in enumerate(h.blocks):
+            if bi not in h.cfg.reach:
+                continue
+            for st in b["stmts"]:
+                if st["k"] == "assign" and is_marker_place(h, st["place"]):
+                    rv = st["rv"]
+                    v = rv["agg"].get("variant") if rv["k"] == "agg" else (mu.operand_variant(h, hdu, rv["op"]) if rv["k"] == "use" else None)
+                    if isinstance(v, str):
+                        out.append((bi, v.rsplit("::", 1)[-1]))
+        return out
+
+    def closures_passed(h, t):
+        """closure bodies constructed in h and handed to call t"""
+        hdu = DefUse(h)
+        out = []
+        for a in t["args"]:
+            l = op_local(a)
+            d = hdu.sole_def(l) if l is not None else None
+            if d is not None and d[2] == "assign" and d[3]["rv"]["k"] == "agg" and d[3]["rv"]["agg"].get("k") == "closure":
+                c = F.fn(short(d[3]["rv"]["agg"]["path"]), required=False)
+                if c is not None and c.mir:
+                    out.append(c)
+        return out
+
+    memo = {}
+
+    def info(g, stack=()):
+        """gray: blocks of g at which Gray is stored; points: blocks every passage of which unmarks the survivors;
+        white_unlooped: g stores White outside a loop of its own (the caller's loop around the call is the unmark loop)"""
+        if g.short in memo:
+            return memo[g.short]
+        memo[g.short] = r = {"gray": [], "points": set(), "white_unlooped": False, "stores_gray": False, "always_unmarks": False,
+                             "white": []}
+        cfg = g.cfg
+        white = []
+        for bi, v in direct_stores(g):
+            if v == "Gray":
+                r["gray"].append(bi)
+            elif v == "White":
+                white.append(bi)
+        for bi, b in enumerate(g.blocks):
+            if bi not in cfg.reach:
+                continue
+            t = b["term"]
+            if t["k"] != "call":
+                continue
+            for n in callee_names(t["func"]):
+                h = F.fn(n, required=False)
+                if h is None or not h.mir or h.is_closure or h.short == g.short or h.short in stack or h.short not in col.shorts:
+                    continue
+                hi = info(h, stack + (g.short,))
+                if hi["stores_gray"]:
+                    r["gray"].append(bi)
+                if hi["always_unmarks"]:
+                    r["points"].add(bi)
+                if hi["white"]:
+                    r["white"].append(bi)
+                if hi["white_unlooped"]:
                     white.append(bi)
-    if not gray or not white:
-        raise AnchorMissing("Gray / White marker stores in gc (found %d / %d)" % (len(gray), len(white)))
-    back = cfg.back_edges()
-    headers = set()
-    for w in white:
-        hs = [h for s_, h in back if cfg.dominates(h, w) and w in cfg.can_reach([s_], avoid=[])]
-        if hs:
-            headers.add(max(hs, key=lambda h: len(cfg.dom[h])))    # innermost
+                break
+            names = callee_names(t["func"])
+            for c in closures_passed(g, t):
+                vs = set(v for _b, v in direct_stores(c))
+                if "Gray" in vs:
+                    r["gray"].append(bi)
+                if "White" in vs and any(n.endswith("Iterator::for_each") for n in names):
+                    r["points"].add(bi)      # `<all objects>.for_each(|m| *m = White)`: the call is the unmark loop
+                    r["white"].append(bi)
+        back = cfg.back_edges()
+        for w in white:
+            r["white"].append(w)
+            hs = [h_ for s_, h_ in back if cfg.dominates(h_, w) and w in cfg.can_reach([s_], avoid=[])]
+            if hs:
+                r["points"].add(max(hs, key=lambda h_: len(cfg.dom[h_])))    # innermost
+            else:
+                r["white_unlooped"] = True
+        r["stores_gray"] = bool(r["gray"])
+        r["always_unmarks"] = bool(r["points"]) and cfg.every_path_passes(0, cfg.return_blocks(), r["points"])
+        return r
+
+    top = info(gc)
+    gray, headers = top["gray"], top["points"]
+    cfg = gc.cfg
+    if not gray or not top["white"]:
+        raise AnchorMissing("Gray / White marker stores in gc (found %d / %d)" % (len(gray), len(top["white"])))
     key = "C02/U/gc/every-exit-passes-the-unmark-phase"
     if not headers:
         return [bad("C02.U", key, gc.loc(), "gc() stores White outside any loop: the survivors are not all unmarked")]
@@ -471,6 +1062,7 @@ def rule_u(F):
         ln = None
         for st in gc.blocks[leak[0]]["stmts"]:
             ln = st.get("ln") or ln
+        ln = ln or gc.blocks[leak[0]]["term"].get("ln")
         res.append(bad("C02.U", key, gc.loc(ln), "gc() can return after marking objects Gray without running the unmark loop (an early exit, e.g. "
                        "'nothing to collect'): the survivors stay Gray, the next collection takes them for already visited and does not look "
                        "at what was stored into them since - objects reachable only through such a container are freed while in use"))
@@ -487,24 +1079,26 @@ def rule_p(F):
     if not prot:
         raise AnchorMissing("GcMarker::Protected")
     prot = prot[0]
-    cfg = gc.cfg
+    col = collector(F)
     found = False
     n_switch = 0
-    for bi, b in enumerate(gc.blocks):
-        t = b["term"]
-        if t["k"] != "switch":
+    for g in col.fns:
+        if not g.mir:
             continue
-        loc = op_local(t["discr"])
-        is_marker = any(st["k"] == "assign" and st["place"]["l"] == loc and st["rv"]["k"] == "discr" and short(st["rv"]["adt"]) == MARKER
-                        for st in b["stmts"])
-        if not is_marker:
-            continue
-        n_switch += 1
-        only = mu.blocks_only_when(gc, bi, prot)
-        for b2 in only:
-            tt = gc.blocks[b2]["term"]
-            if tt["k"] == "call" and any(n.startswith("std::vec::Vec::") and n.endswith("::push") for n in callee_names(tt["func"])):
-                if "CaoLangObject" in "".join(tt.get("arg_tys", [])):
+        for bi, b in enumerate(g.blocks):
+            t = b["term"]
+            if t["k"] != "switch":
+                continue
+            loc = op_local(t["discr"])
+            is_marker = any(st["k"] == "assign" and st["place"]["l"] == loc and st["rv"]["k"] == "discr" and short(st["rv"]["adt"]) == MARKER
+                            for st in b["stmts"])
+            if not is_marker:
+                continue
+            n_switch += 1
+            only = mu.blocks_only_when(g, bi, prot)
+            for b2 in only:
+                # the work list grows: Vec<..CaoLangObject..>::push or a collector function that pushes its argument
+                if col.push_args(g.blocks[b2]["term"]):
                     found = True
     if found:
         res.append(ok("C02.P", "C02/P/protected-objects-traced", gc.loc(), "gc pushes Protected objects on the gray worklist", marker_switches=n_switch))
@@ -517,6 +1111,35 @@ def rule_p(F):
     du = DefUse(g)
     sets = [st for b in g.blocks for st in b["stmts"] if st["k"] == "assign" and mu.field_path(st["place"])[-1:] == ["marker"]
             and st["rv"]["k"] == "use" and mu.operand_variant(g, du, st["rv"]["op"]) == "Protected"]
+    if not sets:
+        # `self.set_marker(GcMarker::Protected)`: a helper that stores one of its parameters into a marker, called with Protected
+        def param_stored_into_marker(h):
+            out = set()
+            hdu = DefUse(h)
+            nargs = len((h.raw.get("sig") or {}).get("inputs", []))
+            for b in h.blocks:
+                for st in b["stmts"]:
+                    if st["k"] == "assign" and mu.field_path(st["place"])[-1:] == ["marker"] and st["rv"]["k"] == "use":
+                        l = op_local(st["rv"]["op"])
+                        for _ in range(6):
+                            if l is None or 1 <= l <= nargs:
+                                break
+                            d = hdu.sole_def(l)
+                            if d is None or d[2] != "assign" or d[3]["rv"]["k"] != "use":
+                                l = None
+                                break
+                            l = op_local(d[3]["rv"]["op"])
+                        if l is not None and 1 <= l <= nargs:
+                            out.add(l)
+            return out
+        for _bi, t in mu.calls(g):
+            for n in callee_names(t["func"]):
+                h = F.fn(n, required=False)
+                if h is None or not h.mir or h.is_closure or not h.short.startswith(("vm::runtime::", "<vm::runtime::")):
+                    continue
+                for p_ in param_stored_into_marker(h):
+                    if p_ - 1 < len(t["args"]) and mu.operand_variant(g, du, t["args"][p_ - 1]) == "Protected":
+                        sets.append(t)
     if sets:
         res.append(ok("C02.P", "C02/P/guard-new-protects", g.loc(), "ObjectGcGuard::new marks the object Protected"))
     else:
@@ -601,13 +1224,8 @@ def rule_v(F):
     then frees objects that for-each / nth-row / keys() still return."""
     from cao.facts import hir_walk, hir_callee, pat_variants
     res = []
-    gc = F.fn("vm::runtime::RuntimeData::gc")
-    arms = None
-    for x in hir_walk(gc.hir["body"]):
-        if x.get("k") == "match" and len(x["arms"]) >= 4 and any("CaoLangObjectBody" in n for a in x["arms"] for n, _s, _p in pat_variants(a["pat"])):
-            arms = x["arms"]
-    if arms is None:
-        raise AnchorMissing("match on CaoLangObjectBody in the mark loop of gc")
+    col = collector(F)
+    gc, arms = mark_match_hir(F)
     n = 0
     for a in arms:
         names = [nm.rsplit("::", 1)[-1] for nm, _s, _p in pat_variants(a["pat"]) if "::" in nm]
@@ -616,7 +1234,7 @@ def rule_v(F):
         for y in calls:
             for cn in hir_callee(y):
                 g = F.fn(cn, required=False)
-                if g is not None and g.hir is not None and cn.startswith(("vm::runtime::", "collections::")):
+                if g is not None and g.hir is not None and cn.startswith(("vm::runtime::", "collections::")) and cn not in col.shorts:
                     # an adapter drops elements *the object still holds* when its predicate depends on a lookup by value
                     # (selecting the occupied slots of a slot array is a complete view of the entries)
                     lossy = [z["name"] for z in hir_walk(g.hir["body"]) if z.get("k") == "mcall" and z["name"] in LOSSY_ADAPTERS
@@ -643,18 +1261,24 @@ def rule_v(F):
 
 
 def rule_k(F):
-    """C02.K: the collector never overwrites the Protected marker. Every store to `<obj>.marker` in RuntimeData::gc lies
-    under a test of the same object's marker that excludes Protected (`if !matches!(m, Protected)`,
-    `if matches!(m, White)`); an unconditional store would turn a guarded object gray/black, the unmark phase then whitens
-    it and the next collection frees it although its guard is alive."""
+    """C02.K: the collector never overwrites the Protected marker. Every store into an object's marker performed by
+    RuntimeData::gc or the private functions it reaches lies under a test of the same marker that excludes Protected
+    (`if !matches!(m, Protected)`, `if matches!(m, White)`, an arm of `match m { Protected => {}, _ => .. }`, an item that
+    passed `.filter(|m| !matches!(m, Protected))`); an unconditional store would turn a guarded object gray/black, the
+    unmark phase then whitens it and the next collection frees it although its guard is alive.
+    The marker may be named through the object (`t.marker`) or through a reference to it (`let m = &mut obj.marker; *m = ..`)."""
     from cao.facts import hir_walk, hir_strip, hir_local_id, pat_variants
     from cao import hirutil as hu
     res = []
     gc = F.fn("vm::runtime::RuntimeData::gc")
+    col = collector(F)
     adt = F.adt("vm::runtime::cao_lang_object::GcMarker")
     ALL = set(v["name"] for v in adt["variants"])
     if "Protected" not in ALL:
         raise AnchorMissing("GcMarker::Protected")
+
+    def is_marker_ty(ty):
+        return (ty or "").replace("&mut ", "").replace("&", "").replace("*mut ", "").strip() == MARKER
 
     def base_of(e):
         e = hu.strip_all(e)
@@ -662,17 +1286,38 @@ def rule_k(F):
             e = hu.strip_all(e["e"])
         return hir_local_id(e) if e is not None else None
 
-    def marker_test(c):
-        """-> (base local, set of marker variants for which the condition is true) or None"""
+    def subject(f, e, depth=0):
+        """which marker an expression denotes: ('obj', local holding the object) for `<obj>.marker`, ('ref', local) for a
+        reference to a marker (a `let m = &mut <obj>.marker` is resolved to the object when the object is a local)"""
+        e = hu.strip_all(e)
+        if e is None:
+            return None
+        if e.get("k") == "field" and e["name"] == "marker":
+            b = base_of(e["e"])
+            return ("obj", b) if b is not None else ("anon", id(e))
+        if e.get("k") == "path" and e["path"]["res"].get("k") == "local" and is_marker_ty(e.get("ty")):
+            lid = e["path"]["res"]["id"]
+            ins = hu.let_inits(f).get(lid, [])
+            if len(ins) == 1 and depth < 4:
+                i0 = hu.strip_all(ins[0])
+                if i0 is not None and i0.get("k") == "field" and i0["name"] == "marker":
+                    su = subject(f, i0, depth + 1)
+                    if su is not None and su[0] == "obj":
+                        return su
+            return ("ref", lid)
+        return None
+
+    def marker_test(f, c):
+        """-> (subject, set of marker variants for which the condition is true) or None"""
         c = hu.strip_casts(c)
         if c is None:
             return None
         if c.get("k") == "un" and c["op"] == "Not":
-            r = marker_test(c["e"])
+            r = marker_test(f, c["e"])
             return (r[0], ALL - r[1]) if r else None
         if c.get("k") == "match":
-            sc = hu.strip_all(c["scrut"])
-            if sc.get("k") == "field" and sc["name"] == "marker":
+            su = subject(f, c["scrut"])
+            if su is not None:
                 true_set, seen = set(), set()
                 for a in c["arms"]:
                     b = hu.strip_casts(a["body"])
@@ -686,42 +1331,181 @@ def rule_k(F):
                     seen |= names
                     if val:
                         true_set |= names
-                return (base_of(sc["e"]), true_set)
+                return (su, true_set)
         return None
 
-    anc = hu.control_ancestors(gc.hir["body"])
-    ifs = {id(x): x for x in hir_walk(gc.hir["body"]) if x.get("k") == "if"}
+    def arm_set(m, idx):
+        """marker variants for which arm `idx` of `match <marker> { .. }` can be taken (earlier unguarded arms win)"""
+        seen = set()
+        for i, a in enumerate(m["arms"]):
+            names = set(n.rsplit("::", 1)[-1] for n, _s, _p in pat_variants(a["pat"]) if "::" in n)
+            if not names:
+                if not any(n == "_" for n, _s, _p in pat_variants(a["pat"])):
+                    return set(ALL)     # a pattern this reader does not understand: no narrowing
+                names = ALL - seen
+            names = (names & ALL) - seen
+            if i == idx:
+                return names
+            if not a.get("guard"):
+                seen |= names
+        return set(ALL)
+
+    def constraints(f):
+        """-> function(node, subject) = set of values the marker can have where `node` runs, from the enclosing
+        `if <test of the marker>` branches, `match <marker> { .. }` arms and iterator filters of f"""
+        root = f.hir["body"]
+        anc = hu.control_ancestors(root)
+        nodes = {id(x): x for x in hir_walk(root)}
+        parents = {}
+        for x in hir_walk(root):
+            for c in hir_children(x):
+                parents[id(c)] = x
+
+        def filter_pred(it):
+            """`<iter>.filter(|m| cond)` (item-preserving adaptors after it skipped) -> (closure param id, cond)"""
+            it = hir_strip(it)
+            while it is not None and it.get("k") in ("mcall", "call"):
+                names = hir_callee(it)
+                nm = it.get("name") or ""
+                if it["k"] == "call" and any(n.endswith("IntoIterator::into_iter") for n in names) and it["args"]:
+                    it = hir_strip(it["args"][0])
+                    continue
+                if it["k"] == "mcall" and nm in ("rev", "into_iter", "by_ref") and any("iter" in n.lower() for n in names):
+                    it = hir_strip(it["recv"])
+                    continue
+                if it["k"] == "mcall" and nm == "filter" and any(n.endswith("Iterator::filter") for n in names) and it["args"]:
+                    cl = hir_strip(it["args"][0])
+                    if cl is not None and cl.get("k") == "closure" and len(cl.get("params", [])) == 1:
+                        ids = [i for i, _n in pat_bindings(cl["params"][0])]
+                        if len(ids) == 1:
+                            return ids[0], cl["body"]
+                return None
+            return None
+
+        def item_constraint(lid):
+            """the local is an item of `<iter>.filter(pred)`: bound by the closure of `.for_each(..)` on it or by the
+            pattern of a `for` loop over it -> (subject of pred's parameter, values that pass) or None"""
+            for x in nodes.values():
+                k = x.get("k")
+                if k == "closure" and any(lid == i for p_ in x.get("params", []) for i, _n in pat_bindings(p_)):
+                    par = parents.get(id(x))
+                    while par is not None and par.get("k") in ("drop_temps", "use", "type", "block") and hir_strip(par) is x:
+                        par = parents.get(id(par))
+                    if par is not None and par.get("k") == "mcall" and par.get("name") == "for_each" and \
+                            any(n.endswith("Iterator::for_each") for n in hir_callee(par)):
+                        fp = filter_pred(par["recv"])
+                        if fp:
+                            t = marker_test(f, fp[1])
+                            if t and t[0] == ("ref", fp[0]):
+                                return t[1]
+                elif k == "match" and x.get("source") == "ForLoopDesugar":
+                    sc = hir_strip(x["scrut"])
+                    if sc is None or sc.get("k") != "call" or not any(n.endswith("IntoIterator::into_iter") for n in hir_callee(sc)):
+                        continue
+                    bound = False
+                    for y in hir_walk(x["arms"][0]["body"]):
+                        if y.get("k") == "match" and y.get("source") == "ForLoopDesugar":
+                            for a in y["arms"]:
+                                pp = a["pat"]
+                                sub = pp["fields"][0]["pat"] if pp.get("k") == "struct" and pp.get("fields") else None
+                                if sub is not None and sub.get("k") == "bind" and sub["id"] == lid:
+                                    bound = True
+                            break
+                    if bound:
+                        fp = filter_pred(sc)
+                        if fp:
+                            t = marker_test(f, fp[1])
+                            if t and t[0] == ("ref", fp[0]):
+                                return t[1]
+            return None
+
+        def allowed_at(node, su):
+            allowed = set(ALL)
+            if su is None or su[0] == "anon":
+                return allowed
+            for kind, nid in anc.get(id(node), ()):
+                c = nodes.get(nid)
+                if c is None:
+                    continue
+                if c["k"] == "if" and kind in ("then", "else"):
+                    t = marker_test(f, c["cond"])
+                    if t is None or t[0] != su:
+                        continue
+                    allowed &= t[1] if kind == "then" else (ALL - t[1])
+                elif c["k"] == "match" and kind.startswith("arm"):
+                    if subject(f, c["scrut"]) == su:
+                        allowed &= arm_set(c, int(kind[3:]))
+            if su[0] == "ref":
+                ic = item_constraint(su[1])
+                if ic is not None:
+                    allowed &= ic
+            return allowed
+        return allowed_at
+
+    def marker_stores(f, depth=0, stack=()):
+        """Every store into a marker that running f performs, in source order: the direct assignments and, for each call
+        of a function of the collector that itself stores into a marker, one entry per call site (the helper stands for the
+        statement it was extracted from). -> list of dict(ln, stored, param, allowed, via) with `param` the index of f's
+        parameter that holds the object, if the marker is named through it."""
+        cached = getattr(f, "_c02_marker_stores", None)
+        if cached is not None:
+            return cached
+        allowed_at = constraints(f)
+        params = {}
+        for i, p_ in enumerate(f.hir.get("params", [])):
+            if p_.get("k") == "bind":
+                params[p_["id"]] = i
+        out = []
+        for x in hir_walk(f.hir["body"]):
+            k = x.get("k")
+            if k == "assign":
+                l = hir_strip(x["l"])
+                su = subject(f, l)
+                if su is None or not (is_marker_ty(l.get("ty")) or (l.get("k") == "field" and l["name"] == "marker")):
+                    continue
+                r = hu.strip_all(x["r"])
+                stored = short(r["path"]["res"].get("path", "")).rsplit("::", 1)[-1] if r.get("k") == "path" and r["path"]["res"].get("k") == "def" else "?"
+                out.append({"ln": x.get("ln"), "stored": stored, "param": params.get(su[1]) if su[0] == "obj" else None,
+                            "allowed": allowed_at(x, su), "via": None})
+            elif k in ("call", "mcall") and depth < 8:
+                for cn in hir_callee(x):
+                    g = F.fn(cn, required=False)
+                    if g is None or g.hir is None or g.is_closure or g is f or g.short in stack or g.short not in col.shorts:
+                        continue
+                    inner = marker_stores(g, depth + 1, stack + (f.short,))
+                    if not inner:
+                        continue
+                    args = ([x["recv"]] if k == "mcall" else []) + list(x["args"])
+                    for st in inner:
+                        allowed = set(st["allowed"])
+                        param = None
+                        if st["param"] is not None and st["param"] < len(args):
+                            base = base_of(args[st["param"]])
+                            if base is not None:
+                                allowed &= allowed_at(x, ("obj", base))
+                                param = params.get(base)
+                        out.append({"ln": x.get("ln"), "stored": st["stored"], "param": param, "allowed": allowed,
+                                    "via": st["via"] or g.name})
+                    break
+        f._c02_marker_stores = out
+        return out
+
     n = 0
     counts = {}
-    for x in hir_walk(gc.hir["body"]):
-        if x.get("k") != "assign":
-            continue
-        l = hir_strip(x["l"])
-        if l.get("k") != "field" or l["name"] != "marker":
-            continue
-        base = base_of(l["e"])
-        r = hu.strip_all(x["r"])
-        stored = short(r["path"]["res"].get("path", "")).rsplit("::", 1)[-1] if r.get("k") == "path" else "?"
-        allowed = set(ALL)
-        for kind, nid in anc.get(id(x), ()):
-            node = ifs.get(nid)
-            if node is None or kind not in ("then", "else"):
-                continue
-            t = marker_test(node["cond"])
-            if t is None or t[0] != base or base is None:
-                continue
-            allowed &= t[1] if kind == "then" else (ALL - t[1])
+    for st in marker_stores(gc):
+        stored, allowed = st["stored"], st["allowed"]
         c = counts.get(stored, 0)
         counts[stored] = c + 1
         key = "C02/K/gc/marker-store-%s%s" % (stored, "" if c == 0 else "#%d" % c)
         n += 1
+        via = " (in %s)" % st["via"] if st["via"] else ""
         if "Protected" in allowed and stored != "Protected":
-            res.append(bad("C02.K", key, gc.loc(x["ln"]),
-                           "gc stores GcMarker::%s into an object's marker without first excluding Protected: an object held by an "
+            res.append(bad("C02.K", key, gc.loc(st["ln"]),
+                           "gc stores GcMarker::%s into an object's marker%s without first excluding Protected: an object held by an "
                            "ObjectGcGuard that is reached here loses its protection, the unmark phase whitens it and the next collection "
-                           "frees it while the guard is alive" % stored))
+                           "frees it while the guard is alive" % (stored, via)))
         else:
-            res.append(ok("C02.K", key, gc.loc(x["ln"]), "store of %s only when the marker is in %s" % (stored, sorted(allowed))))
+            res.append(ok("C02.K", key, gc.loc(st["ln"]), "store of %s%s only when the marker is in %s" % (stored, via, sorted(allowed))))
     if n < 4:
         raise AnchorMissing("stores to marker in RuntimeData::gc (found %d)" % n)
     return res
@@ -734,16 +1518,20 @@ def rule_r(F):
     # functions that receive an ObjectGcGuard through a generic `impl Into<Value>` parameter release the guard themselves
     gi = rooting.guard_instantiations(F)
     fns = [f for f in F.fns if f.mir and (vm_side(f) or f.short in gi)]
-    returns_unrooted = set()
-    for _ in range(4):
+    # function -> the source its unrooted result is named after. A function of the public API is a source of its own
+    # (`run_function`); a private wrapper that returns (on some path) the unrooted result of X is transparent: its callers
+    # see an unrooted result of X, so extracting "push the arguments, call X" into a helper does not rename the origin.
+    returns_unrooted = {}
+    for _ in range(8):
         an = rooting.Analysis(F, maygc, returns_unrooted)
-        new = set()
+        new = {}
         for f in fns:
             if f.is_closure:
                 continue
             _h, ru, _s = an.run(f, param_sources=native_params(f))
             if ru:
-                new.add(f.short)
+                private = f.raw.get("vis", "Public") != "Public"
+                new[f.short] = an.last_return_source if private else None
         if new == returns_unrooted:
             break
         returns_unrooted = new
@@ -858,7 +1646,7 @@ RULES = [
     Rule("C02.U", rule_u, 1, "every exit of gc() after marking passes the unmark phase"),
     Rule("C02.K", rule_k, 9, "the collector never overwrites the Protected marker"),
     Rule("C02.Roots", rule_roots, 7, "gc's root set covers every reference-bearing field of RuntimeData/CallFrame"),
-    Rule("C02.M", rule_m, 6, "the mark loop follows every reference-bearing field of every object kind"),
+    Rule("C02.M", rule_m, 10, "the mark loop follows every reference-bearing field of every object kind, and every storage component of its sub-containers"),
     Rule("C02.P", rule_p, 2, "Protected objects are traced"),
     Rule("C02.R", rule_r, 20, "no unrooted value is passed into or live across a may-collect call"),
     Rule("C02.X", rule_x, 1, "emitter-side justification of the register_upvalue exemption"),
